@@ -1052,6 +1052,73 @@ theorem decisions_unaffected_by_reload_from_initial (D : List Nat) (h ops : List
   obtain ⟨L', hL', hwf'⟩ := wf_after [] {} h ops (by intro z hz; simp [liveAt] at hz) hwf
   exact decisions_unaffected_by_reload_partial D _ ops hc (unchanged_of_wf D ops L' _ hL' hwf' hR)
 
+/-! ### the node side condition, discharged for reachable states -/
+
+theorem nodesThere_run (s : St) (op : HOp) (h : NodesThere s) : NodesThere (op.run s).1 := by
+  cases op with
+  | reload modl re only arg => exact nodesThere_doLoad s modl re only arg h
+  | traffic o =>
+    cases o with
+    | clock t => exact h
+    | mem m => exact h
+    | e y err q rt => exact nodesThere_entry s y err q rt h
+    | enter hd y q => exact nodesThere_enterLive s hd y q h
+    | leave hd err => exact nodesThere_exitLive s hd err h
+
+/-- the invariant holds in every state reachable from the initial one -/
+theorem nodesThere_reachable (h : List HOp) : NodesThere (stateAfter {} h) := by
+  have gen : ∀ (s : St), NodesThere s → NodesThere (stateAfter s h) := by
+    induction h with
+    | nil => intro s hs; exact hs
+    | cons op ops ih => intro s hs; exact ih _ (nodesThere_run s op hs)
+  exact gen {} (by intro y c hc; simp [Mgr.empty] at hc)
+
+/-- "each reload lists rules `isEqualsTo` the bound ones on `D`" — and nothing else about the state: for a flow reload the
+    node condition of `ReloadsUnchanged` is replaced by a condition on the rule list alone (no rule of a resource outside `D`
+    reads the statistic of a resource of `D`; such a rule cannot change a decision on `D`, but it would make the reload create
+    `D`'s node earlier than the traffic does, and the proof compares states literally) -/
+def ReloadsUnchangedStatic (D : List Nat) : St → List HOp → Prop
+  | _, [] => True
+  | s, op :: ops =>
+    (match op with
+      | .traffic _ => True
+      | .reload modl _ only arg =>
+        (modl = "cb" ∧ ∀ rules, parseList parseCb arg = some rules → UnchangedFor cbCalc CbRule.valid (·.res) D s.cb only rules) ∨
+        (modl = "hot" ∧ ∀ rules, parseList parseHot arg = some rules → UnchangedFor hotCalc HotRule.valid (·.res) D s.hot only rules) ∨
+        (modl = "flow" ∧ (∀ rules, parseList parseFlow arg = some rules →
+            UnchangedFor flowCalc FlowRule.valid (·.res) D s.flow only rules ∧
+            ∀ r ∈ rules, ruleTgt r ∈ D → r.res ∈ D)))
+    ∧ ReloadsUnchangedStatic D (op.run s).1 ops
+
+theorem reloadsUnchanged_of_static (D : List Nat) (ops : List HOp) (s : St) (hn : NodesThere s)
+    (h : ReloadsUnchangedStatic D s ops) : ReloadsUnchanged D s ops := by
+  induction ops generalizing s with
+  | nil => trivial
+  | cons op ops ih =>
+    obtain ⟨hop, hrest⟩ := h
+    refine ⟨?_, ih _ (nodesThere_run s op hn) hrest⟩
+    cases op with
+    | traffic o => trivial
+    | reload modl re only arg =>
+      rcases hop with hh | hh | ⟨hm, hh⟩
+      · exact Or.inl hh
+      · exact Or.inr (Or.inl hh)
+      · refine Or.inr (Or.inr ⟨hm, fun rules hp => ?_⟩)
+        obtain ⟨hu, hin⟩ := hh rules hp
+        exact ⟨hu, flow_nodes_present D s only rules hn hu hin⟩
+
+/-- **C14 at decision level, for reachable states, side conditions discharged.**  `h` any history from the initial
+    state, `ops` any continuation; handles well-formed (Boolean `wfHandles`); `D` closed; every reload of `ops` lists, for the
+    resources of `D` it touches, rules `isEqualsTo` the bound ones in order (and, for flow, no rule of another resource that
+    reads `D`'s statistic).  Then the decisions on `D` are those of the same traffic without the reloads. -/
+theorem decisions_unaffected_by_reload_reachable (D : List Nat) (h ops : List HOp)
+    (hwf : wfHandles [] (h ++ ops) = true) (hc : Closed D (stateAfter {} h))
+    (hR : ReloadsUnchangedStatic D (stateAfter {} h) ops) :
+    (decisions (stateAfter {} h) ops).filter (·.1 ∈ D)
+      = (decisions (stateAfter {} h) (ops.filter HOp.isTraffic)).filter (·.1 ∈ D) :=
+  decisions_unaffected_by_reload_from_initial D h ops hwf hc
+    (reloadsUnchanged_of_static D ops _ (nodesThere_reachable h) hR)
+
 end decisions
 
 end Sentinel.C14
